@@ -996,6 +996,8 @@ def run(index: RepoIndex, rep) -> None:
     from .c20 import check_gym_space, representation_switch
     check_gym_space(index, rep, 'C15.R6')
     representation_switch(index, rep, 'C15.R6')
+    from .c20 import constructor_spaces
+    constructor_spaces(index, rep, 'C15.R6')
     from .c01 import membership
     membership(index, rep, 'C15.R7')
     # Space checks dtype compatibility on construction
